@@ -405,6 +405,7 @@ func init() {
 		Packages: []string{"pkg/aa"},
 		Generate: func(env *Env) *Gen {
 			g := genStandard(env, "C13", true, nil)
+			g.Static = append(g.Static, boundedC13Expansion(env))
 			// "reported as an error": no failure of resolveValues is swallowed by Resolve
 			if fn := env.Prog.Func("pkg/aa", "(*AppArmorProfileFile).Resolve"); fn != nil {
 				g.Static = append(g.Static, frame.ErrorsPropagated(env.Prog, fn, ").resolveValues"))
